@@ -47,7 +47,7 @@ def geo_stream(draw):
             qs.append(q)
     as_ = [_dyadic(draw, 31, 4) for _ in range(k)]
     L = _dyadic(draw, 1023, 6, allow_zero=True)
-    want = draw(st.integers(1, 2 * k + 3))
+    want = draw(st.one_of(st.integers(1, 2 * k + 3), st.integers(2 * k + 1, 2 * k + 3)))
     terms = []
     for n in range(want):
         v = L + sum(a * q ** n for a, q in zip(as_, qs))
@@ -56,7 +56,8 @@ def geo_stream(draw):
             break
         terms.append(f)
     return dict(kind='geo', family='geo', k=k, L=float(L), a=[float(a) for a in as_],
-                q=[float(q) for q in qs], terms=terms, limexp=draw(_limexp()))
+                q=[float(q) for q in qs], terms=terms, truncated=len(terms) < want,
+                limexp=draw(_limexp()))
 
 
 def _length():
@@ -147,7 +148,7 @@ class C14(Prop):
                    'convergence) and for finding_key only, never for the verdict')
     constants = {'C_EPSALG': C_EPSALG, 'C_DEA3': C_DEA3, 'C_DEA_EPSALG': C_DEA_EPSALG, 'FLOOR': FLOOR,
                  'FLOOR_SLACK': FLOOR_SLACK, 'NE_MAX': NE_MAX, 'NONTRIV_B': NONTRIV_B, 'GUARD_WIDEN': 4}
-    examples = {'quick': 1500, 'thorough': 40000}
+    examples = {'quick': 3000, 'thorough': 20000}
 
     def strategy(self, tier):
         return st.one_of(geo_stream(), random_stream(), random_stream())
@@ -196,7 +197,8 @@ class C14(Prop):
                 else:
                     ctx.count('epsalg geo: degenerate (vanishing difference before column 2k)')
             else:
-                ctx.count('epsalg geo: fewer than 2k+1 terms')
+                ctx.count('epsalg geo: fewer than 2k+1 terms%s'
+                          % (' (truncated: inexact term)' if case.get('truncated') else ''))
         return values, nontriv
 
     # ----------------------------------------------------------------------------- Dea ---
